@@ -13,7 +13,7 @@ from pydantic.dataclasses import dataclass
 from ...connect import is_connectable, Connectable
 from ...portref import PortRef
 from ...module import Module
-from ...instance import Instance
+from ...instance import Instance, InstanceArray
 from ...noconn import NoConn
 from ...bundle import (
     AnonymousBundle,
@@ -90,14 +90,32 @@ class ConnTypes(ElabPass):
         for inst in module.instances.values():
             self.check_instance(module, inst)
 
-        # FIXME: whether to also check arrays.
-        # This would require some more smarts about valid broadcast widths.
-        # Currently they are checked by a late-stage pass after flattening.
-        # for inst in module.instarrays.values():
-        #     self.check_instance(module, inst)
+        # For arrays, check *which* ports are connected.
+        # Whether what they are connected to fits depends on the broadcasting rules,
+        # and is checked by a late-stage pass after the arrays have been flattened.
+        # (By then the targets' Bundle ports have been flattened too, and connections naming
+        # the ports those are flattened *into* - which the target never had - could no longer be told apart.)
+        for array in module.instarrays.values():
+            self.check_array_ports(module, array)
 
         # No errors means it checked out, return the Module unchanged
         return module
+
+    def check_array_ports(self, module: Module, array: InstanceArray) -> None:
+        """Check that `array` connects each port of its target, and nothing else."""
+        self.stack.append(array)
+        io = io_for_checking(parent=module, i=array.of)
+        statuses: Dict[str, ConnStatus] = dict()
+        for portname in io.keys():
+            if portname not in array.conns:
+                statuses[portname] = Unconnected(portname)
+        for conn_name in array.conns.keys():
+            if conn_name not in io:
+                statuses[conn_name] = NoPort(conn_name)
+        if statuses:
+            msg = f"Invalid connections `{statuses}` on Instance Array `{array.name}` in Module `{module.name}`"
+            self.fail(msg)
+        self.stack.pop()
 
     def check_instance(self, module: Module, inst: Instance) -> None:
         """Check the connections of `inst` in parent `module`"""
